@@ -606,6 +606,14 @@ func (r *beRun) modeEvict() {
 		}
 
 		before := walkSet()
+
+		// nothing may disappear between cleanup cycles (no Delete / DeleteAll in these workloads)
+		for k := range acc {
+			if _, ok := before[k]; !ok {
+				out.violate("C12.R1", r.sc.Backend+" removed-outside-cleanup-cycle", "entry %q disappeared although no cleanup cycle ran since it was written / last seen", k)
+			}
+		}
+
 		wakes, needBefore := r.janitor.Wakes, len(r.needCalls)
 		evictMetricBefore := r.evictMetric()
 
@@ -657,6 +665,13 @@ func (r *beRun) modeEvict() {
 		}
 
 		if ambiguous {
+			// not judged; keep the access log in step with what is left
+			for k := range acc {
+				if _, ok := after[k]; !ok {
+					delete(acc, k)
+				}
+			}
+
 			continue
 		}
 
